@@ -23,6 +23,26 @@ CHECKS.update({
          "Every device of the tool's own table x every instruction form (each mnemonic, each X/Y/Z pointer form, each lpm/elpm form) with three operand tuples per form: forms the device lacks according to its flags must fail the build; every other form must assemble to the same words as the independent encoder gives (one-word lds/sts on reduced cores). Exhaustive over device x form.",
          "Feature flags are read from the tool's table (the property defers to it); their meaning is taken from the AVR/avra documentation in isa::gate. Operand tuples per form are sampled (3), forms and devices are complete.",
          "DESIGN.md §5 C13"),
+ "C02": ("proptest program recipes interpreted per device, compared byte for byte with the reference layout model; label values observed through a .dd table",
+         "20k (quick) / 400k (thorough) generated multi-segment programs per run over every device of the table: interleaved .cseg/.dseg/.eseg blocks, forward .org (literal, constant expression or earlier .equ), one- and two-word instructions (one-word lds/sts on reduced cores), odd/even .db with strings, .dw/.dd/.dq, .byte, labels before items and at block ends. code, eeprom and ram_filling must equal the model's layout and every label value (made visible in a final .dd table) must equal the position of the item that follows it. Backward .org must fail.",
+         "Reference layout model harness/src/model.rs. Input domain restrictions of DESIGN §4 (.org is followed by an item of the same segment, never follows a label, `.org 0` only at position 0). Known finding: .byte with a non-literal operand (exercised in a separate fixed leg, excluded from the random stream).",
+         "DESIGN.md §5 C02"),
+ "C03": ("deterministic boundary sweep + proptest placements, decoded with the independent decoder and compared with the reference model",
+         "Every branch kind (18 br*, brbs/brbc, rjmp, rcall) x every distance within 3 of both range limits x 4 fillers deterministically (1848 cases) plus 30k (quick) / 600k (thorough) generated placements with fillers of one/two-word instructions, odd .db, .dw and .org gaps, targets spelled as label, pc±k, label+k, label-k. A reachable target must give exactly displacement d (the harness decodes the word with its own decoder); an unreachable one must fail the build.",
+         "isa::assemble / isa::decode for the displacement field; the construction is cross-checked against the model (any inconsistency is a harness error, exit 2).",
+         "DESIGN.md §5 C03"),
+ "C06": ("proptest data-directive programs against the reference model, with single-fault must-fail variants",
+         "30k (quick) / 600k (thorough) programs of .db/.dw/.dd/.dq lines in flash and EEPROM with values within ±2 of both ends of each width's range, strings (empty, hostile ASCII, multi-byte UTF-8), forward .equ symbols, labels, .byte in EEPROM; bytes must match the model (little-endian, exact width, one pad byte per odd .db line in flash only). Variants with exactly one fault (value beyond either end, string in a word directive, data in .dseg, .byte in .cseg) must fail.",
+         "Accepted range per width is signed-min..unsigned-max (-128..255 etc.), the union the documentation describes; .dq accepts every i64.",
+         "DESIGN.md §5 C06"),
+ "C07": ("round trip through the real writer and an independent strict Intel HEX reader over enumerated and random image lengths",
+         "Arbitrary images are written with write_code_hex / write_eeprom_hex and decoded with the harness's own reader (record syntax, length, checksum, types 00-05, one EOF last, no byte twice): every length 0..600 (thorough 0..4096) for both writers, every 64 KiB boundary up to the largest flash of the device table ±17 (thorough ±300), random lengths, lengths around 1 MiB and up to the 8 MiB no-device capacity, random / all-zero / all-0xFF contents. The decoded address->byte map must be exactly the image.",
+         "harness/src/ihex.rs implements the Intel HEX specification (segment and linear base records).",
+         "DESIGN.md §5 C07"),
+ "C12": ("exhaustive device x memory x boundary grid, shipped part-definition files vs enforced capacities, random programs for reported sizes",
+         "Every device + no device x {flash, EEPROM, RAM} x usage {cap-1, cap, cap+1} x 4 ways of reaching it (2.1k builds up to 8 MiB): builds iff usage <= capacity, reports the device's sizes and ram_filling = data extent. Every shipped includes/*def.inc whose device is in the table: the four figures it declares (pragma AVRPART MEMORY, falling back to FLASHEND/E2END/SRAM_*) are compared with what is enforced, through `.device` and (when the file assembles) through a build that includes it. Unknown and second .device must fail. Plus 2k/100k random multi-segment programs for sizes.",
+         "Shipped files naming a device that is not in the table are counted (skipped), not reported: the statement makes an unknown device an error. RAM start is only observable when RAM size > 0.",
+         "DESIGN.md §5 C12"),
 })
 NOT_YET = {}
 
